@@ -15,6 +15,8 @@ import (
 	"encoding/json"
 	"fmt"
 	"io"
+	metav1 "k8s.io/apimachinery/pkg/apis/meta/v1"
+	utilruntime "k8s.io/apimachinery/pkg/util/runtime"
 	"os"
 	"os/exec"
 	"runtime"
@@ -22,6 +24,7 @@ import (
 	"strconv"
 	"strings"
 	"sync"
+	"sync/atomic"
 	"time"
 
 	apierrors "k8s.io/apimachinery/pkg/api/errors"
@@ -528,6 +531,91 @@ type cluster struct {
 	lists    int
 	watches  int
 	onList   func(gvr schema.GroupVersionResource, ns string, phase string) // informer LISTs only
+	proxies  []*proxyWatch
+}
+
+// a panic inside an informer's event-handler goroutine would kill the whole harness process (it cannot be recovered from
+// here); client-go's crash handler is told to log and carry on instead, so that the case in which it happened shows up as
+// what the caller of the watcher sees: the event for that object never arrives
+var c16HandlerPanics int64
+
+func init() {
+	utilruntime.ReallyCrash = false
+	utilruntime.PanicHandlers = append(utilruntime.PanicHandlers, func(_ context.Context, _ interface{}) {
+		atomic.AddInt64(&c16HandlerPanics, 1)
+	})
+}
+
+// proxyWatch forwards the events of a tracker watch until it is stopped or broken.
+type proxyWatch struct {
+	inner   watch.Interface
+	out     chan watch.Event
+	stop    chan struct{}
+	brk     chan struct{}
+	brkOnce sync.Once
+	once    sync.Once
+	gvr     schema.GroupVersionResource
+}
+
+func (p *proxyWatch) run() {
+	defer close(p.out)
+	for {
+		select {
+		case e, ok := <-p.inner.ResultChan():
+			if !ok {
+				return
+			}
+			select {
+			case p.out <- e:
+			case <-p.stop:
+				return
+			}
+		case <-p.brk:
+			// the server expires the watch: 410 Gone, which makes the reflector re-list (a plain close would only make
+			// it re-watch from its last resourceVersion, which the fake tracker cannot serve)
+			p.inner.Stop()
+			select {
+			case p.out <- watch.Event{Type: watch.Error, Object: &metav1.Status{Status: metav1.StatusFailure, Code: 410,
+				Reason: metav1.StatusReasonExpired, Message: "too old resource version"}}:
+			case <-p.stop:
+			}
+			return
+		case <-p.stop:
+			return
+		}
+	}
+}
+func (p *proxyWatch) expire()                        { p.brkOnce.Do(func() { close(p.brk) }) }
+func (p *proxyWatch) Stop()                          { p.once.Do(func() { close(p.stop); p.inner.Stop() }) }
+func (p *proxyWatch) ResultChan() <-chan watch.Event { return p.out }
+
+// breakWatches ends every open watch on gvr the way an expired connection does: the stream just closes; the informer's
+// reflector re-lists after its back-off and synthesises the deletes it missed (DeletedFinalStateUnknown).
+// liveWatches counts the open watches on gvr (with c.mu held).
+func (c *cluster) liveWatches(gvr schema.GroupVersionResource) int {
+	n := 0
+	for _, p := range c.proxies {
+		if p.gvr != gvr {
+			continue
+		}
+		select {
+		case <-p.brk:
+		case <-p.stop:
+		default:
+			n++
+		}
+	}
+	return n
+}
+
+// (called from inside mutate, i.e. with c.mu held)
+func (c *cluster) breakWatches(gvr schema.GroupVersionResource) {
+	ps := append([]*proxyWatch{}, c.proxies...)
+	for _, p := range ps {
+		if p.gvr == gvr {
+			p.expire()
+		}
+	}
 }
 
 func newCluster(mapped []kindInfo) *cluster {
@@ -559,6 +647,15 @@ func newCluster(mapped []kindInfo) *cluster {
 	})
 	c.client.PrependWatchReactor("*", func(a clienttesting.Action) (bool, watch.Interface, error) {
 		w, err := tracker.Watch(a.GetResource(), a.GetNamespace())
+		if err == nil {
+			// a proxy that the harness can break, like a watch connection that the API server expires
+			pw := &proxyWatch{inner: w, out: make(chan watch.Event), stop: make(chan struct{}), brk: make(chan struct{}), gvr: a.GetResource()}
+			go pw.run()
+			c.mu.Lock()
+			c.proxies = append(c.proxies, pw)
+			c.mu.Unlock()
+			w = pw
+		}
 		c.mu.Lock()
 		if c.inflight > 0 {
 			c.inflight--
@@ -735,6 +832,34 @@ func runWatcherCase(in watcherIn) (out watcherOut) {
 			})
 			cur[i] = v
 			ever[i] = true
+		case "gapdel":
+			// the watch connection on this resource breaks, the object is deleted while no watch is open, the informer re-lists
+			if _, ok := cur[i]; !ok {
+				return
+			}
+			n0 := 0
+			cl.mutate(func() {
+				n0 = cl.liveWatches(o.kind.gvr())
+				cl.breakWatches(o.kind.gvr())
+				_ = tracker.Delete(o.kind.gvr(), o.ns, o.name)
+			})
+			delete(cur, i)
+			// the connection stays down until the reflectors have re-listed and opened new watches (their back-off, about a
+			// second); what happens to this resource meanwhile is a different scenario (changes inside the gap are merged)
+			for dl := time.Now().Add(6 * time.Second); ; {
+				cl.mu.Lock()
+				n := cl.liveWatches(o.kind.gvr())
+				idle := cl.inflight == 0
+				cl.mu.Unlock()
+				if n >= n0 && idle {
+					break
+				}
+				if time.Now().After(dl) {
+					out.Timeout = true
+					break
+				}
+				time.Sleep(2 * time.Millisecond)
+			}
 		case "del":
 			if _, ok := cur[i]; !ok {
 				return
@@ -992,6 +1117,7 @@ func genWatcherCase(rng *proto.Rng, ids []jid, st [][]string) watcherIn {
 	}
 	nsGone := false
 	crdThere := false
+	gapOK := false // broken watches only once the watcher runs (there is no watch to break before)
 	inNs1 := func(i int) bool { return c16Objs[i].ns == "ns1" }
 	mutateOne := func() {
 		i := proto.Pick(rng, mutable)
@@ -1002,7 +1128,13 @@ func genWatcherCase(rng *proto.Rng, ids []jid, st [][]string) watcherIn {
 			return // the Widget informer is certainly running only while the CRD object exists
 		}
 		if _, ok := cur[i]; ok && rng.Chance(1, 4) {
-			add("del", i)
+			if gapOK && rng.Chance(1, 4) {
+				add("bar") // everything sent so far has been delivered before the connection breaks
+				add("gapdel", i)
+				add("bar")
+			} else {
+				add("del", i)
+			}
 			delete(cur, i)
 			return
 		}
@@ -1020,6 +1152,7 @@ func genWatcherCase(rng *proto.Rng, ids []jid, st [][]string) watcherIn {
 		mutateOne()
 	}
 	add("watch")
+	gapOK = in.Strict && !crdScenario && !nsScenario
 	steps := 2 + rng.Intn(7)
 	for s := 0; s < steps; s++ {
 		switch {
@@ -1111,6 +1244,9 @@ func directWatcherCases(ids []jid, st [][]string) []watcherIn {
 			[][]any{s("watch"), s("set", oPodA, 1), s("bar"), s("set", oCrd, 0), s("bar"), s("set", oWidget, 0), s("set", oCrd, 1), s("bar"),
 				s("del", oWidget), s("bar"), s("del", oCrd), s("bar"), s("set", oCrd, 1), s("bar"), s("set", oWidget, 1), s("bar")}))
 		// CRD created while its resource is not yet served; established by a status-only update; then the custom resource appears
+		// the watch on pods breaks, pod a is deleted while it is down, the re-list reports it (DeletedFinalStateUnknown)
+		cs = append(cs, mk(scope, [][3]string{podNs1}, []int{oPodA},
+			[][]any{s("set", oPodA, 1), s("watch"), s("bar"), s("gapdel", oPodA), s("bar"), s("set", oPodA, 0), s("bar")}))
 		late := mk(scope, [][3]string{widT, crdT, podNs1}, []int{oWidget, oCrd, oPodA},
 			[][]any{s("watch"), s("set", oCrd, 0), s("bar"), s("set", oCrd, 1), s("bar"), s("set", oWidget, 0), s("bar"), s("set", oWidget, 1), s("bar"),
 				s("del", oWidget), s("bar")})
